@@ -61,7 +61,9 @@ impl Byte32 {
     pub fn to_entity(&self) -> (r: Byte32) ensures r@ == self@ { unimplemented!() }
 }
 // the bytes of a message table; `extra` = the number of fields beyond the base layout that the table really has
-pub struct RawSlice { pub extra: usize }
+pub struct RawSlice { pub extra: usize, pub ghost v1_ok: bool }     // v1_ok: the bytes are a well-formed V1 table (compatible mode)
+#[derive(Debug)]
+pub struct MolError { pub x: u8 }       // molecule::error::VerificationError
 pub struct SendBlocksProofReader<'a> {
     pub last: &'a VerifiableHeaderPacked, pub prf: &'a Vec<HeaderDigestReader>, pub hdrs: &'a Vec<HeaderReaderP>,
     pub missing: &'a Vec<Byte32>, pub extra_fields: usize,
@@ -81,8 +83,14 @@ impl<'a> SendBlocksProofReader<'a> {
 // table that really has the two extra fields
 pub struct SendBlocksProofV1Reader<'a> { pub v1_uncles: &'a Vec<Byte32>, pub v1_exts: &'a Vec<BytesOptReader> }
 impl<'a> SendBlocksProofV1Reader<'a> {
+    // the V1 view without verification: only of bytes that ARE a well-formed V1 table - the message was verified in compatible
+    // mode as the legacy table, which says nothing about trailing fields (defect S20: reading unverified extra fields panics)
     #[verifier::external_body]
-    pub fn new_unchecked(s: RawSlice) -> (r: SendBlocksProofV1Reader<'a>) requires s.extra >= 2 { unimplemented!() }
+    pub fn new_unchecked(s: RawSlice) -> (r: SendBlocksProofV1Reader<'a>) requires s.extra >= 2, s.v1_ok { unimplemented!() }
+    // the verifying constructor (further unknown fields are tolerated)
+    #[verifier::external_body]
+    pub fn from_compatible_slice(s: RawSlice) -> (r: core::result::Result<SendBlocksProofV1Reader<'a>, MolError>)
+        ensures r is Ok ==> s.v1_ok && s.extra >= 2, s.extra < 2 ==> r is Err { unimplemented!() }
     pub fn blocks_uncles_hash(&self) -> (r: Byte32VecReader<'a>) ensures r.items == self.v1_uncles { Byte32VecReader { items: self.v1_uncles } }
     pub fn blocks_extension(&self) -> (r: BytesOptVecReader<'a>) ensures r.items == self.v1_exts { BytesOptVecReader { items: self.v1_exts } }
 }
